@@ -182,12 +182,12 @@ class Impl:
             self.entropies[sid] = None
             return "ok"
         if op == "state":
+            # secret scalar, outbound element and password scalar (attributes the library's own tests read);
+            # the _started/_finished flags are private and observable through behaviour only
             s = self.sessions[int(ws[1])]
             sc = getattr(s, "xy_scalar", None)
             ob = getattr(s, "outbound_message", None)
-            b = lambda v: "true" if v else "false"
-            return "st %s %s %s %s %d" % (b(s._started), b(s._finished), "none" if sc is None else sc,
-                                          "none" if ob is None else hx(ob), s.pw_scalar)
+            return "st %s %s %d" % ("none" if sc is None else sc, "none" if ob is None else hx(ob), s.pw_scalar)
         if op == "p.mns":
             P = self.params[int(ws[1])]
             return "ok %s %s %s" % (hx(P.M.to_bytes()), hx(P.N.to_bytes()), hx(P.S.to_bytes()))
